@@ -84,6 +84,8 @@ TOKENS = ["(", ")", "{", "}", "[", "]", ";", ",", ".", "...", "=>", "=", "==", "
           "a", "b", "x", "arguments", "eval", "Symbol", "Proxy", "Reflect", "Object", "Array", "Promise", "#p", "@", "\\u0061", "\n", "//c\n", "/*c*/", "label:", "=>{}", "[]", "{}", "()"]
 
 NASTY = [
+    "[0xD800, 0xDBFF, 0xDC00, 0xDFFF, 0xFFFF, 0x10000, 0x10FFFF].forEach(function (c) { var s = String.fromCodePoint(c); print(s.length, s.charCodeAt(0).toString(16), s.isWellFormed(), s.toWellFormed().length, [...s].length, s.codePointAt(0), JSON.stringify(s).length, s.normalize('NFC').length, s.toUpperCase().length, s.padEnd(3, s).length, s.localeCompare(s)); try { print(encodeURIComponent(s)); } catch (e) { print(e.name); } });",
+    "print(String.fromCharCode(0xD800, 0xDC00).codePointAt(0), String.fromCodePoint(0x1F600, 0xDC00, 0x41).length, '\\uD83D'.concat('\\uDE00').at(0).length, escape('\\uD800'), unescape('%uD800').length);",
     "var m = (-2147483647 - 1) | 0; print(m % -1, m / -1, m * -1, -m, m ** 2, m >> 31, m >>> 0);",
     "var p={a:1,b:2}; var o=Object.create(p); function get(x){return x.b}; get(o);get(o); delete p.a; print(get(o));",
     "function f(){ f(); } try { f(); } catch (e) { print(e.name); }",
@@ -111,6 +113,110 @@ NASTY = [
     "var big = '9'.repeat(400); print(Number(big), BigInt(big) % 7n, (10n ** 400n).toString().length); try { 1n / 0n; } catch (e) { print(e.name); } try { 2n ** -1n; } catch (e) { print(e.name); }",
     "try { BigInt.asUintN(2 ** 53, 1n); } catch (e) { print(e.name); } print(BigInt.asIntN(64, -(2n ** 63n) - 1n), BigInt.asUintN(0, 5n)); try { 1n << (2n ** 64n); } catch (e) { print(e.name); }",
 ]
+
+
+# ------------------------------------------------------------------------------------------------ builtin sweep, lexer edges, cache shapes
+SWEEP = r"""
+(function () {
+  var seed = SEED >>> 0;
+  function rnd(n) { seed = (Math.imul(seed, 1664525) + 1013904223) >>> 0; return (seed >>> 8) % n; }
+  var fns = [], seen = [];
+  function walk(o, path, d) {
+    if ((typeof o !== 'object' && typeof o !== 'function') || o === null || seen.indexOf(o) >= 0 || d > 3) return;
+    seen.push(o);
+    var ks = Reflect.ownKeys(o);
+    for (var i = 0; i < ks.length; i++) {
+      var k = ks[i], desc = Reflect.getOwnPropertyDescriptor(o, k), name = path + '.' + String(k);
+      if (name === 'globalThis.print' || /^globalThis\.__/.test(name)) continue;
+      var cands = [desc.value, desc.get, desc.set];
+      for (var j = 0; j < 3; j++) if (typeof cands[j] === 'function' && seen.indexOf(cands[j]) < 0) fns.push({ fn: cands[j], holder: o, name: name + ['', '(get)', '(set)'][j] });
+      if (desc.value) walk(desc.value, name, d + 1);
+    }
+  }
+  walk(globalThis, 'globalThis', 0);
+  var dab = new ArrayBuffer(8), dta = new Uint8Array(dab); try { __detach(dab); } catch (e) {}
+  var rp = Proxy.revocable({}, {}); rp.revoke();
+  function* gen() { yield 1; }
+  var vals = [undefined, null, true, -1, 0, -0, 1, 2, 255, 65536, 0xD800, 0xDFFF, 0x10FFFF, 0x110000, NaN, Infinity, -Infinity, 1.5, 10n, -1n, '', 'a', 'abc', '\uD800', 'a\uDC00b',
+    '0', '-1', 'length', '__proto__', '$&$1', '(?<n>a)|', Symbol.iterator, Symbol('x'), {}, [], [1, 2, 3], [, 1], ['b', 'a'], function () { return 1; }, new Proxy({}, {}), new Proxy([], {}), rp.proxy,
+    { valueOf: function () { throw 1; } }, { toString: function () { return {}; } }, { length: -1 }, { length: '2', 0: 'x', 1: 'y' }, { length: 65536 }, { then: function () { throw 2; } },
+    new Uint8Array(4), new Float64Array(2), dta, dab, new ArrayBuffer(8, { maxByteLength: 16 }), new DataView(new ArrayBuffer(4)), new Date(NaN), new Date(0), /a/g, /(?:)/y,
+    new Map([[1, 2]]), new Set([1]), new WeakMap(), Promise.resolve(1), gen(), (function () { return arguments; })(1, 2), class A { }, new Error('e'), Object.create(null), Object.freeze([1]),
+    new String('s'), new Number(1), Object(1n), Object(Symbol('w')), globalThis, Array.prototype, Object.prototype];
+  var n = 0;
+  for (var i = LO; i < HI && i < fns.length; i++) {
+    var f = fns[i];
+    for (var c = 0; c < CALLS; c++) {
+      var recv = [];
+      for (var v = 0; v < vals.length; v++) { try { if (f.holder === vals[v] || (Object(vals[v]) === vals[v] ? f.holder.isPrototypeOf(vals[v]) : f.holder.isPrototypeOf(Object(vals[v])))) recv.push(vals[v]); } catch (e) {} }
+      var thisv = (recv.length && rnd(4)) ? recv[rnd(recv.length)] : (rnd(3) ? f.holder : vals[rnd(vals.length)]);
+      var args = [], na = rnd(4);
+      for (var a = 0; a < na; a++) args.push(vals[rnd(vals.length)]);
+      try { if (rnd(5) === 0) Reflect.construct(f.fn, args); else Reflect.apply(f.fn, thisv, args); } catch (e) {}
+      n++;
+    }
+  }
+  print('swept', Math.min(HI, fns.length) - LO, n, fns.length);
+})();
+"""
+
+LEX_EDGES = []
+for k in range(0, 13):
+    LEX_EDGES.append("var r = /a/" + "dgimsuyvdgims"[:k] + ";")
+    LEX_EDGES.append("/[/]\\//" + "gimsuyxq"[:k % 9] + ".test('')")
+LEX_EDGES += ["0x", "0b", "0o", "0x_1", "1_", "1__0", "1e", "1e+", "1.e", ".e1", "0.0.0", "1n.x", "1.5n", "0x1n", "08n", "09.5", "0_1", "1_000_000n", "0b12", "0o8", "1e1000", "1e-1000", "0x" + "f" * 400, "1" * 400,
+              "9" * 400 + "n", "'\\u{110000}'", "'\\u{}'", "'\\u{1F600}'", "'\\uD800'", "'\\uD83D\\uDE00'", "'\\x'", "'\\x1'", "'\\u12'", "'\\08'", "'\\8'", "'use strict'; '\\01'", "`\\u{110000}`", "`\\01`", "tag`\\u{110000}\\x`",
+              "`${", "`${}`", "`${`${`${1}`}`}`", "`\\", "'\\", "'", "\"", "`", "/", "/*", "/**/ /", "/[", "/(?", "/a/\\u0067", "/\\", "/a\\\n/", "<!--", "-->", "#!x", "#", "#x", "#x in {}", "@", "\\", "\\u", "\\u{", "\\u{61}", "\\u0061\\u0062 = 1",
+              "var \\u{1F600}", "var \\uD800", "var \\uD83D\\uDE00", "var a\\u200D", "var \\u{61}\\u{62}c = 1; abc", "a b", "'a b'", "﻿1", "1﻿", "  1", "᠎", "var ᠎", "x‌", "𠮷 = 1", "var 𠮷, \ud800",
+              "1..toString()", "1.toString()", "1 .x", "a?.1:2", "a?.[", "a?.`x`", "new.target", "import.meta", "import(", "super()", "yield", "await", "async () =>", "async\n() => 1", "({ async *[Symbol.iterator]() {} })",
+              "class A { static { await } }", "class A { #x; #x }", "class A { constructor(){} constructor(){} }", "({ __proto__: 1, __proto__: 2 })", "({ get a(){}, set a(v){} , a })", "for (let of of [])", "for (async of [])", "for (let in {})",
+              "label: label: ;", "a: { b: { break a; } }", "if (1) function f(){}", "while (0) let\nx", "do x while (0) y", "return", "break", "continue", "let let", "let [", "const a", "var {", "function (", "function* (", "=>", "()=>", "(a, a) => 1",
+              "'use strict'; (a, a) => 1", "'use strict'; with (a) b", "'use strict'; 010", "'use strict'; delete a", "'use strict'; eval = 1", "(", ")", "[", "]", "{", "}", "((((((((((((((((((((", "[[[[[[[[[[[[[[[[[[[[", "{{{{{{{{{{{{{{{{{{{{", "a" + "+a" * 300,
+              "a" + ".b" * 300, "!" * 300 + "a", "`" + "${`" * 40, "f(" * 60, "x = " * 100 + "1", "[" + "," * 500 + "]", "({" + "a:1," * 300 + "})", "a ? " * 60 + "1" + " : 2" * 60, "'" + "\\u0061" * 300 + "'"]
+
+IC_KINDS = ["data", "ro", "getter", "setter", "both", "absent", "proto-data", "proto-getter", "proto-setter", "proto-both"]
+
+
+def ic_program(r):
+    lines = ["var log = [];", "function mk(kind) { var p = {}, o = Object.create(p); switch (kind) {",
+             " case 'data': o.x = 1; break; case 'ro': Object.defineProperty(o, 'x', { value: 2, writable: false, configurable: true }); break;",
+             " case 'getter': Object.defineProperty(o, 'x', { get: function () { return 3; }, configurable: true }); break;",
+             " case 'setter': Object.defineProperty(o, 'x', { set: function (v) { log.push('set' + v); }, configurable: true }); break;",
+             " case 'both': Object.defineProperty(o, 'x', { get: function () { return 4; }, set: function (v) { log.push('SET' + v); }, configurable: true }); break;",
+             " case 'proto-data': p.x = 5; break; case 'proto-getter': Object.defineProperty(p, 'x', { get: function () { return 6; }, configurable: true }); break;",
+             " case 'proto-setter': Object.defineProperty(p, 'x', { set: function (v) { log.push('pset' + v); }, configurable: true }); break;",
+             " case 'proto-both': Object.defineProperty(p, 'x', { get: function () { return 7; }, set: function (v) { log.push('PSET' + v); }, configurable: true }); break; }",
+             " return o; }",
+             "function rd(o) { return o.x; } function wr(o, v) { o.x = v; return o.x; } function rdk(o, k) { return o[k]; } function has(o) { return 'x' in o; } function del(o) { return delete o.x; }",
+             "function srd(o) { 'use strict'; return o.x; } function swr(o, v) { 'use strict'; o.x = v; }",
+             "function show(f) { try { print(String(f())); } catch (e) { print('E:' + (e && e.name)); } }"]
+    objs = []
+    for i in range(2 + r() % 4):
+        k = IC_KINDS[r() % len(IC_KINDS)]
+        objs.append("o%d" % i)
+        lines.append("var o%d = mk('%s');" % (i, k))
+    for _ in range(8 + r() % 14):
+        o = objs[r() % len(objs)]
+        k = r() % 12
+        if k < 4:
+            lines.append("show(function () { return rd(%s); });" % o)
+        elif k < 6:
+            lines.append("show(function () { return wr(%s, %d); });" % (o, r() % 9))
+        elif k < 7:
+            lines.append("show(function () { return srd(%s) + ':' + (swr(%s, %d), rdk(%s, 'x')); });" % (o, o, r() % 9, o))
+        elif k < 8:
+            lines.append("show(function () { return has(%s) + ':' + del(%s) + ':' + rd(%s); });" % (o, o, o))
+        elif k < 9:
+            lines.append("Object.defineProperty(%s, 'x', %s);" % (o, ["{ get: undefined, set: function (v) {}, configurable: true }", "{ value: 9, writable: true, configurable: true }",
+                                                                       "{ get: function () { return 8; }, configurable: true }", "{ set: undefined, get: undefined, configurable: true }"][r() % 4]))
+        elif k < 10:
+            lines.append("Object.getPrototypeOf(%s).y%d = 1; delete Object.getPrototypeOf(%s).x;" % (o, r() % 3, o))
+        elif k < 11:
+            lines.append("Object.setPrototypeOf(%s, %s);" % (o, ["null", "{ x: 11 }", "Object.getPrototypeOf(%s)" % objs[r() % len(objs)], "new Proxy({}, {})"][r() % 4]))
+        else:
+            lines.append("Object.%s(%s);" % (["freeze", "seal", "preventExtensions"][r() % 3], o))
+    lines.append("print(log.join());")
+    return "\n".join(lines)
 
 
 def mutate(r, src):
@@ -243,6 +349,15 @@ def run(ck):
         inputs.append(("tokens", token_soup(r).encode(), r() % 5 == 0))
     for _ in range(300 if quick else 8000):
         inputs.append(("bytes", raw_bytes(r), False))
+    for e in LEX_EDGES:
+        inputs.append(("lexer-edge", e.encode("utf-8", "surrogatepass") if isinstance(e, str) else e, False))
+        if quick is False or r() % 3 == 0:
+            inputs.append(("lexer-edge", ("eval(%s)" % json.dumps(e)).encode("utf-8", "surrogatepass"), False))
+    for _ in range(150 if quick else 4000):
+        inputs.append(("cache-shapes", ic_program(r).encode(), False))
+    nfn, step_, calls = 775, 25, (24 if quick else 160)
+    for lo in range(0, nfn, step_):
+        inputs.append(("builtin-sweep", ("var SEED = %d, LO = %d, HI = %d, CALLS = %d;" % (r() % (1 << 31), lo, lo + step_, calls) + SWEEP).encode("utf-8", "surrogatepass"), False))
     chunks = [inputs[i::16] for i in range(16)]
     outcomes = {}
     npanic = 0
@@ -253,7 +368,7 @@ def run(ck):
     def run_chunk2(chunk):
         src = []
         for i, (kind, b, reuse) in enumerate(chunk):
-            src.append(("//// c%d%s loop=3000 rec=200 stack=20000 budget=400000" % (i, " reuse=1" if reuse else " reset=1")).encode())
+            src.append(("//// c%d%s %s" % (i, " reuse=1" if reuse else " reset=1", "loop=5000000 rec=300 budget=400000000" if kind == "builtin-sweep" else "loop=3000 rec=200 stack=20000 budget=400000")).encode())
             src.append(b.replace(b"\r", b" ").replace(b"\n//// ", b"\n// // "))
         p = subprocess.run([bins["trace"]], input=b"\n".join(src) + b"\n", capture_output=True, timeout=3000)
         return p.returncode, p.stdout.decode("utf-8", "replace"), p.stderr.decode("utf-8", "replace")[-300:]
